@@ -50,6 +50,7 @@ from concurrent.futures import ThreadPoolExecutor
 from vf import build, tlc, trace
 from vf import run as hrun
 from vf.core import InfraError
+from checks.deferred import Deferred, crash_signal
 
 LEVEL = "exploration"
 READY = True
@@ -361,27 +362,49 @@ def _jobs(ctx, rd):
     return jobs
 
 
-def _record(ctx, exe, jobs, timeout):
+def _record(ctx, exe, jobs, timeout, deferred):
     res = hrun.run_many(exe, jobs, timeout=timeout, workers=6, env=SAN_HIST)
     chunks = []
     for j, h in zip(jobs, res):
         ev = [e for e in hrun.read_ndjson(j[0])]
-        if h.san:
-            last = next((e for e in reversed(ev) if e.get("e") == "Fit"), {})
-            ctx.violation("PCA:%s" % h.san, "sanitizer report while fitting %s:\n%s" % (last, h.err[:1500]), _case_of(last))
-        if h.timed_out:
-            raise InfraError("c01 harness timed out: %s" % j[1:])
-        if h.rc != 0 and not h.san:
-            raise InfraError("c01 harness failed rc=%d: %s\n%s" % (h.rc, j[1:], h.err[-800:]))
         summ = [e for e in ev if e.get("e") == "Summary"]
-        if not summ:
-            raise InfraError("c01 harness wrote no Summary (%s)" % j[1:])
-        wd = [e for e in ev if e.get("e") == "Abort" and e.get("why") == "watchdog"]
+        ev = [e for e in ev if e.get("e") != "Summary"]
+        blocks = tlc.split_blocks(ev) if ev else []
+        # the fit that was running when the harness process itself ended: its Fit event is written before the library is called
+        running = None
+        if not summ and blocks and not any(e.get("e") in ("Back", "Abort", "Dropped") for e in blocks[-1]):
+            running = next((e for e in blocks[-1] if e.get("e") == "Fit"), None)
+        if h.san:
+            last = running or next((e for e in reversed(ev) if e.get("e") == "Fit"), {})
+            ctx.violation("PCA:%s" % h.san, "sanitizer report while fitting %s:\n%s" % (last, h.err[:1500]), _case_of(last))
+        # everything below can be provoked by a change to the library (a dying / hanging fit): deferred, the complete recorded fits are still judged
+        if h.timed_out:
+            deferred.add("c01 harness timed out: %s" % j[1:])
+        elif h.rc != 0 and not h.san:
+            sg = crash_signal(h.rc)
+            if sg and running:
+                ctx.violation("PCA:crash:harness-%s" % sg, "the harness process died (%s) while fitting %s:\n%s" % (sg, running, h.err[-800:]), _case_of(running))
+            elif sg:
+                # died between two fits: the parent process prepares the next input of its (deterministic, in-quantifier) list with the library's NewMatrix / MatrixPreprocess
+                nrec = sum(1 for e in ev if e.get("e") == "Fit")
+                case = dict(kind="job", job=[str(a) for a in j[1:]], recorded_fits=nrec)
+                if j[1] == "cases":
+                    case["lines"] = open(j[2]).read().split("\n")
+                ctx.violation("PCA:crash:harness-%s" % sg, "the harness process died (%s) while preparing the input that follows the %d recorded fits of job %s (the library's NewMatrix / "
+                              "MatrixPreprocess run there):\n%s" % (sg, nrec, j[1:], h.err[-800:]), case)
+            else:
+                deferred.add("c01 harness failed rc=%d: %s\n%s" % (h.rc, j[1:], h.err[-800:]))
+        elif not summ and not h.san:
+            deferred.add("c01 harness wrote no Summary (%s)" % j[1:])
+        if not summ and blocks:
+            blocks = blocks[:-1] if not any(e.get("e") in ("Back", "Abort", "Dropped") for e in blocks[-1]) else blocks      # the unfinished last block is not a recorded fit
+        wd = [b for b in blocks if any(e.get("e") == "Abort" and e.get("why") == "watchdog" for e in b)]
         if wd:
-            # the iteration budget (deterministic) did not trip but the wall clock did: machine load, not a verdict
-            raise InfraError("c01 harness: a fit exceeded the wall-clock watchdog without exhausting its iteration budget (%s)" % j[1:])
-        chunks.append([e for e in ev if e.get("e") != "Summary"])
-    return chunks
+            # the iteration budget (deterministic) did not trip but the wall clock did: machine load, not a verdict - those fits are left out, the rest is judged
+            deferred.add("c01 harness: a fit exceeded the wall-clock watchdog without exhausting its iteration budget (%s)" % j[1:])
+            blocks = [b for b in blocks if not any(b is w for w in wd)]
+        chunks.append([e for b in blocks for e in b])
+    return [c for c in chunks if c]
 
 
 def _case_of(fit):
@@ -393,7 +416,7 @@ def _case_of(fit):
                 npc=fit.get("npc"), nproc=fit.get("nproc"))
 
 
-def _account(ctx, chunks):
+def _account(ctx, chunks, deferred):
     nfit = ndrop = 0
     worst = {}
     for ev in chunks:
@@ -414,7 +437,8 @@ def _account(ctx, chunks):
                 worst["back_scan"] = max(worst.get("back_scan", 0), e["scan"])
                 worst["back_minus_4repr"] = max(worst.get("back_minus_4repr", 0), max(e["err"], e["scan"]) - 4 * min(e["repr"], 100000))
     if nfit == 0:
-        raise InfraError("c01 harness produced no Fit events")
+        deferred.add("c01 harness produced no Fit events")
+        return 0, ndrop
     # vacuity: every antecedent of the ledger must occur in the recording
     fits = [e for ev in chunks for e in ev if e["e"] == "Fit"]
     classes = dict(full_rank=sum(1 for e in fits if e["npc"] == e["rank"] and e["tail"] == 0), multi_component=sum(1 for e in fits if e["npc"] >= 2),
@@ -431,7 +455,7 @@ def _account(ctx, chunks):
     ctx.steps["classes"] = classes
     missing = [k for k, v in classes.items() if v == 0]
     if missing:
-        raise InfraError("c01 recording does not exercise: %s (vacuous antecedents)" % missing)
+        deferred.add("c01 recording does not exercise: %s (vacuous antecedents)" % missing)       # judged after the trace validation: fits that died early empty these classes
     ctx.steps["worst_residuals_1e-12"] = worst
     ctx.steps["models"] = dict(fitted=nfit, dropped_outside_quantifier=ndrop)
     return nfit, ndrop
@@ -648,8 +672,12 @@ def run(ctx):
     rd = tlc.rundir()
     try:
         jobs = _jobs(ctx, rd)
-        chunks = _record(ctx, exe, jobs, timeout=1500 if ctx.quick else 3000)
-        nfit, ndrop = _account(ctx, chunks)
+        deferred = Deferred(ctx)
+        chunks = _record(ctx, exe, jobs, timeout=1500 if ctx.quick else 3000, deferred=deferred)
+        nfit, ndrop = _account(ctx, chunks, deferred)
+        if nfit == 0:
+            deferred.settle()
+            return
         ctx.note("recorded %d fits (%d generated inputs dropped as outside the quantifier); worst residuals (1e-12 units): %s" % (nfit, ndrop, ctx.steps["worst_residuals_1e-12"]))
         shown = 0
         for ev in chunks:
@@ -665,8 +693,10 @@ def run(ctx):
         if not ctx.violations:
             missing = [t for t in REQUIRED_CLASSES if not ctx.classes.get(t)]
             if missing:
-                raise InfraError("c01: input classes never executed (measured by TLC on the recording): %s" % missing)
-        _binding(ctx, chunks)
+                deferred.add("c01: input classes never executed (measured by TLC on the recording): %s" % missing)
+        if not deferred:
+            _binding(ctx, chunks)
+        deferred.settle()
     finally:
         shutil.rmtree(rd, ignore_errors=True)
 
